@@ -2,6 +2,7 @@
 stream handed to reader/writer).  Every operation is logged so that
 "append-only", "closed" and "no byte written" are observable."""
 import os
+import sys
 
 import z3
 
@@ -13,6 +14,8 @@ def _int_arg(n, avail):
     the concrete number of bytes taken (forks on a symbolic size)"""
     if isinstance(n, SInt):
         ctx = Ctx.cur
+        if ctx.branch(z3.Or(n.e > sys.maxsize, n.e < -sys.maxsize - 1)):
+            raise OverflowError('Python int too large to convert to C ssize_t')
         if ctx.branch(n.e < 0):
             return avail
         if ctx.branch(n.e >= avail):
@@ -22,6 +25,8 @@ def _int_arg(n, avail):
         return avail
     if not isinstance(n, int):
         raise TypeError("argument should be integer or None, not '%s'" % type(n).__name__)
+    if n > sys.maxsize or n < -sys.maxsize - 1:
+        raise OverflowError('Python int too large to convert to C ssize_t')
     return avail if (n < 0 or n > avail) else n
 
 
